@@ -61,14 +61,15 @@ Fixpoint cause_text (e : err) : option N :=
 Inductive mval :=
 | MStr (s : N)                 (* any string; 0 = "" = absent *)
 | MDur (d : Z)                 (* a string time.ParseDuration accepts, in ns *)
-| MUntil (d : Z).              (* RFC3339 time = (time of the call) + d *)
+| MUntil (d : Z).              (* RFC3339 time = (time of the call) + d; observed in whole seconds
+                                  and relative to the start of the invocation: compared within 3 s *)
 Definition meta := list (N * mval).
 
 Definition mval_eqb (a b : mval) : bool :=
   match a, b with
   | MStr s, MStr t => N.eqb s t
   | MDur d, MDur e => Z.eqb d e
-  | MUntil d, MUntil e => Z.eqb d e
+  | MUntil d, MUntil e => Z.leb (Z.abs (d - e)) 3000000000
   | _, _ => false
   end.
 
